@@ -285,6 +285,12 @@ class Ctx:
         self.known_hits = {}      # sig -> description
         self.known = [k for k in load_known_findings() if k["property"] == prop]
         self.notes = []
+        import glob
+        for f in glob.glob(os.path.join(VERIF, "replays", f"{prop}-*.json")):
+            try:
+                os.remove(f)
+            except OSError:
+                pass
 
     # ---- reporting -------------------------------------------------------------------------
     def violation(self, replay, no_input=False):
